@@ -87,6 +87,16 @@ def structure(dim, k, g):
     v0 = bench.real_eval(g, M[0])
     if v0 != f[0]:
         fail(who + "value at the paraboloid vertex is %r, prescribed %r" % (v0, f[0]))
+    # the same through ONE coordinate container that the caller overwrites in place (array and list)
+    from iOpt.trial import FunctionValue, Point
+    for buf in (np.zeros(dim, dtype=np.double), [0.0] * dim):
+        pt = Point(buf, [])
+        for i in list(range(10)) + [1, 0]:
+            buf[:] = [float(c) for c in M[i]]
+            v = g.Calculate(pt, FunctionValue()).value
+            if v != f[i]:
+                fail(who + "value at minimiser %d is %r, prescribed %r, when the point is supplied in a re-used %s" %
+                     (i, v, f[i], type(buf).__name__))
 
 
 def hard_class_function(dim, k):
